@@ -44,6 +44,13 @@ theorem wsum_mono (s : Survey) (p q : Resp → Bool) (hw : WeightsNonneg s)
       simp [hp, hq]; linarith
     · by_cases hq : q r = true <;> simp [hp, hq] <;> linarith
 
+/-- mapping respondents without changing weights -/
+theorem wsum_map (s : Survey) (f : Resp → Resp) (hf : ∀ r, (f r).w = r.w) (p : Resp → Bool) :
+    wsum (s.map f) p = wsum s (fun r => p (f r)) := by
+  induction s with
+  | nil => simp
+  | cons r s ih => simp only [List.map_cons, wsum_cons, ih, hf]
+
 theorem wsum_false (s : Survey) : wsum s (fun _ => false) = 0 := by
   induction s with
   | nil => simp
